@@ -307,9 +307,20 @@ mod builtins {
         })
     }
 
+    fn string_for_fold(value: &Value) -> Option<&str> {
+        if value.kind() == ValueKind::String {
+            value.as_str()
+        } else {
+            None
+        }
+    }
+
     fn cmp_helper(a: &Value, b: &Value, case_sensitive: bool, reverse: bool) -> Ordering {
         let ordering = if !case_sensitive {
-            if let (Some(a), Some(b)) = (a.as_str(), b.as_str()) {
+            // only real strings are folded: `as_str` also returns UTF-8 bytes, and
+            // folding those makes the order non-transitive (strings sort before
+            // bytes) which lets `sort_by` panic.
+            if let (Some(a), Some(b)) = (string_for_fold(a), string_for_fold(b)) {
                 #[cfg(feature = "unicode")]
                 {
                     unicase::UniCase::new(a).cmp(&unicase::UniCase::new(b))
@@ -1737,7 +1748,7 @@ mod builtins {
             };
             let memorized_value = if case_sensitive {
                 value_to_compare.clone()
-            } else if let Some(s) = value_to_compare.as_str() {
+            } else if let Some(s) = string_for_fold(&value_to_compare) {
                 Value::from(s.to_lowercase())
             } else {
                 value_to_compare.clone()
